@@ -556,7 +556,7 @@ def gen_histories(rng, tier):
                'updates': [[(ED, 'hello\n    world')], []], 'corpus': 'test_read_write_status_file'})
     # witnesses of the open findings F14c, F14d
     hs.append({'init': {}, 'stages': ['stage0'], 'updates': [[(ED, 'boom\n')]], 'corpus': 'F14c'})
-    hs.append({'init': {}, 'stages': ['stage0'], 'updates': [[('exit-status', 'x\nstages=[]')]], 'corpus': 'F14d'})
+    hs.append({'init': {}, 'stages': ['stage0'], 'updates': [[('exit-status', 'x\ncost=99')]], 'corpus': 'F14d'})
     for i in range(n):
         nup = rng.randint(1, 6)
         uni = 0.15 if rng.random() < 0.15 else 0.0
